@@ -67,7 +67,7 @@ Section Rt.
         by (apply Forall_forall; intros k _; apply prun_kv).
       destruct (prun_children n cs IH Hcs [] false (TBC :: TNL :: rest) (fn, []) []) as [c1 H1].
       etransitivity; [exact H1|]. cbn [KvParse.prun fst snd]. rewrite Hsb.
-      unfold root_first. now rewrite app_nil_r, rev_involutive.
+      unfold root_first. rewrite app_nil_r, rev_involutive. cbn [rev app]. reflexivity.
   Qed.
 
   Lemma prun_doc : forall d, forallb kv_ok d = true -> forall stk cur cfr rest, sb_root stk = false -> exists cfr1,
